@@ -209,10 +209,32 @@ fn oracle(s: &ProgScene<X>, t: &Trace) -> Vec<Violation> {
     }
     if !x.fail || !certain_exceed {
         // every submitted message is eventually entered (the actor carries on)
-        let tie_failed = x.fail && first_exceeded.is_some();
+        // a message that needs exactly the limit may be abandoned - with a zero limit even before
+        // its handler is polled for the first time, so it never shows as entered; under
+        // fail_on_timeout the actor is then gone for the later ones, too
+        // (with a zero limit this can happen to every message, whatever it needs: nothing is
+        // required to be entered then - what is required is that no call above the limit says Ok)
+        if x.timeout == Some(0) {
+            for (id, d) in x.durations.iter().filter(|(_, d)| *d > 0) {
+                let call = an.ops.iter().find(|o| matches!(s.clients.get(o.c as usize).and_then(|c| c.ops.get(o.i as usize)), Some(Op::Call(_, m)) if m == id));
+                if call.is_some_and(|c| c.ok()) {
+                    out.push(Violation {
+                        clause: "above-limit-abandoned",
+                        key: format!("C11/call-ok-above-limit/{cfg}"),
+                        detail: format!("call {id} (needs {d}, timeout 0) returned Ok"),
+                    });
+                }
+            }
+            return out;
+        }
+        let is_tie = |d: u32| x.timeout == Some(d);
+        let tie_failed = x.fail && (first_exceeded.is_some() || x.durations.iter().any(|(_, d)| is_tie(*d)));
         if !tie_failed {
             crate::check::oblige("carries-on");
-            for (id, _) in &x.durations {
+            for (id, d) in &x.durations {
+                if is_tie(*d) {
+                    continue;
+                }
                 if an.enter_of_msg(0, *id).is_empty() {
                     out.push(Violation {
                         clause: "carries-on",
@@ -330,10 +352,11 @@ fn make_case_s(timeout: Option<u32>, fail: bool, durs: &[u32], mailbox: Mailbox,
 
 fn base_cases(tier: Tier) -> Vec<Case> {
     let mut v = vec![];
-    let ts: &[u32] = &[1, 2, 5];
+    // (0 is a legal limit too: whatever suspends at all is abandoned at once)
+    let ts: &[u32] = &[0, 1, 2, 5];
     let mbs = [Mailbox::U, Mailbox::B(1)];
     for &t in ts {
-        let mut ds = vec![0, t - 1, t, t + 1, 2 * t];
+        let mut ds = vec![0, t.saturating_sub(1), t, t + 1, 2 * t];
         ds.sort();
         ds.dedup();
         for fail in [false, true] {
@@ -371,7 +394,7 @@ fn base_cases(tier: Tier) -> Vec<Case> {
     }
     // idle gaps between messages: the budget of a handler starts when it starts, not earlier
     for &t in ts {
-        let mut ds = vec![0, t - 1, t, t + 1];
+        let mut ds = vec![0, t.saturating_sub(1), t, t + 1];
         ds.sort();
         ds.dedup();
         for fail in [false, true] {
